@@ -820,6 +820,21 @@ try:
         Sg = ((inp.get("result") or {}).get("ok") or {}).get("S") or []
         return exact_rank(A) < len(A) or any(row[0] == "0" for row in Sg)
 
+    @_findings.predicate("la_svd_wide_ill_conditioned")
+    def _p7b(inp):
+        """svd of a WIDE matrix (rows < columns) that is numerically close to rank deficient at the working precision (returned
+        singular values spread over at least p/2 bits — outside the property's "moderate condition"), the only failing part being
+        the orthonormality of U: the numerical form of LA8 (the columns of U belonging to the smallest singular values are not
+        normalised to working precision; tall matrices with the same grading keep both factors orthonormal)"""
+        t = inp.get("task", {})
+        A = t.get("A", [])
+        ans = inp.get("answers", {})
+        sv = inp.get("sv_summary")
+        if not (t.get("op") in ("svd", "svd_r", "svd_c") and A and len(A) < len(A[0]) and ans.get("cert") == "V:violates:orthU"
+                and all(v == "V:ok" or k in ("cert", "orthUfull") for k, v in ans.items()) and sv and sv[0] is not None):
+            return False
+        return sv[2] > 0 or sv[0] - sv[1] >= int(t.get("prec", 53)) // 2
+
     @_findings.predicate("la_absolute_singularity_threshold")
     def _p8(inp):
         """qr_solve (householder: `abs(s) > eps`) and the overdetermined branch of lu_solve (cholesky of A^H A: `s < eps`) compare
@@ -919,7 +934,7 @@ class Engine:
                 out["failing"].append({"site": c["site"], "what": what,
                                        "input": {"task": c["task"], "cls": c.get("cls"), "answers": c["ans"],
                                                  "tag": tag, "routine": c.get("routine", c["site"]),
-                                                 "result": _short(res)}})
+                                                 "result": _short(res), "sv_summary": _sv_summary(res)}})
             elif status == "noresult":
                 out["noresult"].append({"site": c["site"], "what": what, "task": c["task"]})
             elif status == "undecided":
@@ -927,6 +942,27 @@ class Engine:
             if len(out["samples"]) < 6 and status == "ok" and c.get("nontrivial", True) and len(json.dumps(c["task"])) < 700:
                 out["samples"].append({"site": c["site"], "task": c["task"], "answers": c["ans"]})
         return out
+
+
+def _sv_summary(res):
+    """binary magnitudes of the returned singular values (survives the truncation of large results): [log2 max, log2 min of the
+    nonzero ones, number of exact zeros], None when the result has no S"""
+    try:
+        Sg = ((res or {}).get("ok") or {}).get("S")
+        if not Sg:
+            return None
+        mags, zeros = [], 0
+        for row in Sg:
+            tok_ = str(row[0]).split(",")[0]
+            m_, _, e_ = tok_.partition(":")
+            m_ = int(m_)
+            if m_ == 0:
+                zeros += 1
+            else:
+                mags.append(abs(m_).bit_length() + int(e_ or 0))
+        return [max(mags), min(mags), zeros] if mags else [None, None, zeros]
+    except Exception:  # noqa
+        return None
 
 
 def _short(res):
